@@ -11,12 +11,14 @@
 (*        (circular binary segmentation, C09); a candidate without inner  *)
 (*        interval keeps score 0 and pick <<0, 0>>.                       *)
 (* RemoveTest = "code" | "strict" (cpt > starts: mutant) | "touch"        *)
-(*        (overlap test with >=: mutant).  Thresholds are half-integers   *)
-(*        (Thr2 = 2 * threshold, odd).                                     *)
+(*        (overlap test with >=: mutant).  Thr2 = 2 * threshold: odd      *)
+(*        values never tie with a score, even values do; "exceeds" is     *)
+(*        strict.  Exceed = "strict" (the code) | "weak" (>=: mutant; with *)
+(*        threshold 0 the loop no longer terminates).                      *)
 (***************************************************************************)
 EXTENDS GreedyDefs, TLC, Json
 
-CONSTANTS N, M, L, K, V, Thr2s, Mode, RemoveTest, Emit, NSlices, Slice
+CONSTANTS N, M, L, K, V, Thr2s, Mode, RemoveTest, Exceed, Emit, NSlices, Slice
 
 VARIABLES iv, sc, pk, thr2, work, picks, pc
 vars == <<iv, sc, pk, thr2, work, picks, pc>>
@@ -50,7 +52,7 @@ HitsCode(c, p) ==
 \* while np.any(scores > threshold): argmax; pick; scores[hit] = 0.0
 Loop ==
     /\ pc = "loop"
-    /\ IF \E i \in 1..Len(iv) : 2 * work[i] > thr2
+    /\ IF \E i \in 1..Len(iv) : (IF Exceed = "strict" THEN 2 * work[i] > thr2 ELSE 2 * work[i] >= thr2)
        THEN \E i \in {j \in 1..Len(iv) : \A k \in 1..Len(iv) : work[k] <= work[j]} :   \* argmax: any maximiser
                /\ picks' = Append(picks, pk[i])
                /\ work' = [j \in 1..Len(iv) |-> IF HitsCode(iv[j], pk[i]) THEN 0 ELSE work[j]]
